@@ -44,7 +44,7 @@ def parseHooks (s : String) : Hooks :=
       let l := (ops.splitOn ";").filterMap parseHookOp
       match pt with
       | "s" => { h with start := l } | "e" => { h with endCb := l }
-      | "c" => { h with cancelCb := l } | "p" => { h with pull := l } | _ => h
+      | "c" => { h with cancelCb := l } | "p" => { h with pull := l } | "n" => { h with next := l } | _ => h
     | _ => h) {}
 
 def parseSpec (wm sw ecb ccb bad coro hooks : String) : SpawnSpec :=
